@@ -137,8 +137,10 @@ CLAIMS = {
         'level': 'The structural rules the statement contains: sibling signature classes drop exactly the first parameter exactly when bound; '
                  'the five parameter kinds are derivable and rendered with the "/" (also trailing) and bare "*" markers; bracket_start is '
                  'the matched "(" leaf; docstring composition and cleandoc on every path; the keyword guard of calculate_index is decided as '
-                 'a boolean function by its truth table. Equality with inspect.signature is not decided.',
-        'technique': 'sibling agreement + CFG gate rules + truth-table evaluation of a guard AST (ast)',
+                 'a boolean function by its truth table, as is the candidate test for a typed keyword; the dispatch of process_params (which '
+                 'parameters of a wrapped callable stay reachable through a pure *args / **kwargs pass-through) is decided cell by cell over '
+                 '5 kinds x 3 forwardings by abstract execution of the loop body. Equality with inspect.signature is not decided.',
+        'technique': 'sibling agreement + CFG gate rules + truth-table evaluation of guard ASTs + decision-table evaluation of a dispatch loop (ast)',
     },
     'C12': {
         'level': 'Whole-package inventory of code-execution sinks and host-state writers by resolved callee (every call site classified), '
